@@ -175,7 +175,7 @@ def check_c10(pid, tier, replay):
     rnd += [gen_pitch.seq_history(rng, 50 if q else 90) for _ in range(80 if q else 1000)]
     # interleave the expensive sweep histories with the cheap ones so that the chunks are balanced
     heavy = sweeps + fine + keysw
-    cheap = beh + porta + rule + rnd + gen_pitch.reset_histories()
+    cheap = beh + porta + rule + rnd + gen_pitch.reset_histories() + gen_pitch.cut_histories()
     random.Random(vc.seed() * 31 + 10).shuffle(cheap)
     random.Random(vc.seed() * 37 + 10).shuffle(heavy)
     histories = []
